@@ -604,6 +604,7 @@ func report(o *Options, w *World, results []*FuncResult, jobs []*job, start time
 	covers := 0
 	bySolver := map[string]int{}
 	retried := 0
+	retriedNames := map[string]bool{} // the brittle ones: decided only when asked again, alone, with three times the time
 	var solverTime float64
 	for _, j := range jobs {
 		ob := j.o
@@ -630,6 +631,7 @@ func report(o *Options, w *World, results []*FuncResult, jobs []*job, start time
 		g.time += ob.Time
 		if ob.Retried {
 			retried++
+			retriedNames[ob.Name+" ("+ob.Solver+")"] = true
 		}
 		if ob.Status != "discharged" {
 			g.failed = append(g.failed, ob)
@@ -812,7 +814,7 @@ func report(o *Options, w *World, results []*FuncResult, jobs []*job, start time
 		"trusted_base": append([]string{"golang.org/x/tools/go/ssa v0.29.0", "govc SSA->SMT translation", "z3 5.1.0 (z3-new)", "cvc5 1.0", "z3 4.8.12 (thorough tier and second-chance pass)"}, keys(trusted)...),
 		"functions_under_contract": funcs, "inlined_callees": keys(inlined), "by_backend": bySolver, "by_kind": kinds,
 		"solver_s": round3(solverTime), "cover_checks": covers, "cover_vacuous": len(coverBad), "samples": samples,
-		"known_findings_hit": knownHits, "solver_timeout_s": o.timeout, "decided_in_second_pass": retried,
+		"known_findings_hit": knownHits, "solver_timeout_s": o.timeout, "decided_in_second_pass": retried, "second_pass_obligations": keys(retriedNames),
 		"callees_verified_by_closure": w.closure,
 		"exported_functions_not_under_contract": w.uncovered,
 	}
